@@ -2,6 +2,7 @@ import HappyProofs.C10.TuaWin
 import HappyProofs.C10.TuaSpecAD
 import HappyProofs.C10.AdaptiveCredit
 import HappyProofs.C10.PropsAdaptive
+import HappyProofs.C10.PropsRun
 import HappyProofs.C10.EntityInv
 import HappyProofs.C10.EntityPoll
 import HappyProofs.C10.EntityCap
